@@ -69,11 +69,6 @@ def _sc(x):
 
 def _qpair(x):
     f = Fraction(float(x))
-    if f.denominator > 4096 and abs(f) < 200:
-        # not one of the exactly representable inputs the harness feeds (a changed weight or value): log the
-        # nearest small rational -- TLC then judges the run against what the accumulator was really given, and
-        # the comparison with the exported exact statistics (binding A) judges what it should have been given
-        f = f.limit_denominator(4096)
     if f.denominator > 4096 or abs(f.numerator) > 10 ** 6:
         raise RuntimeError('value %r is not a small rational: cannot be logged exactly' % (x,))
     return [f.numerator, f.denominator]
@@ -84,8 +79,11 @@ def _wpair(w):
     (scale 1/S) can tell a weight below 1e-200 from zero, so it is logged as the zero it stands for."""
     w = float(w)
     if 0.0 <= w < 1e-200:
-        return [0, 1]
-    return _qpair(w)
+        return [0, 1], 0
+    f = Fraction(w)
+    if w != w or f.denominator > 4096 or abs(f.numerator) > 10 ** 6:
+        return [0, 1], 1          # not a weight the harness fed (those are k/4): flagged, TLC rejects the update
+    return [f.numerator, f.denominator], 0
 
 
 def _emit(ev):
@@ -115,7 +113,8 @@ def _install():
         if pj is not None and _W['log']:
             idx, a, b = pj
             u = (float(np.asarray(value)[idx]) - b) / a
-            _emit(dict(ev='U', i=int(_W['cur_i']), v=_qpair(u), w=_wpair(weight), cnt=int(self.count),
+            wq, wx = _wpair(weight)
+            _emit(dict(ev='U', i=int(_W['cur_i']), v=_qpair(u), w=wq, wx=wx, cnt=int(self.count),
                        wc=_sc(self.wcount), mean=_sc((float(np.asarray(self.mean)[idx]) - b) / a),
                        m2=_sc(float(np.asarray(self.M2)[idx]) / (a * a))))
         return r
@@ -572,7 +571,7 @@ def judge_prof(ctx, vec, case, res, ref):
     cls = 'profiles:%s' % shape_class(counts)
     if case.get('profiles', True) and any(w == 0 for w in ws):
         # classified by the order the ranks really processed the samples in (logged update events)
-        zc = zero_class(processed_lists(res[1], ws)) if res[0] == 'ok' else 'zero-weight'
+        zc = (zero_class(processed_lists(res[1], ws)) if res[0] == 'ok' else '') or 'zero-weight-unclassified'
         cls += ':%s:numpy-weights' % zc
         COVER.add(('profiles', nr, zc, True))
     dcls = 'derived:%s:%s' % ('tied-weights' if ties else 'distinct-weights', 'one-rank' if nr == 1 else 'several-ranks')
@@ -687,7 +686,7 @@ def validate_events(ctx, runs, label):
         wsf = [frac(x) for x in case['w']]
         if any(x == 0 for x in wsf):
             per_rank = pr_by_tid.get(tid, [])
-            cls += ':%s:%s' % (zero_class(processed_lists(per_rank, wsf)),
+            cls += ':%s:%s' % (zero_class(processed_lists(per_rank, wsf)) or 'zero-weight-unclassified',
                                'numpy-weights' if (case['kind'] != 'ov' or case.get('npw')) else 'python-weights')
         ctx.verdict('trace_' + (b['why'] if b else 'accepted'), b is None, cls=cls,
                     detail='TLC rejected event %s of rank %s (line %s): %s; n=%d nr=%d per-rank counts %s' %
@@ -747,6 +746,11 @@ def canary(ctx, by_tid, good):
     u = [e for e in ev if e['ev'] == 'U'][-1]
     u['m2'] += 7
     muts.append((900003, 'update', ev))
+    # (5) an update with a weight that is none of the fed ones
+    ev = [dict(e, tid=900007) for e in base]
+    u = [e for e in ev if e['ev'] == 'U'][0]
+    u['wx'] = 1
+    muts.append((900007, 'weight', ev))
     # (4) per-process sequence numbers out of order
     ev = [dict(e, tid=900004) for e in base]
     g = [e for e in ev if e['ev'] == 'G'][0]
